@@ -114,7 +114,7 @@ ADDENDA = {
  "C01": " Added later: rows longer than a page and menu-less sink pages, a menu separator longer than ':', and output sizes at the 16-bit boundary (65535..2^32-1) with a 70 kB page.",
  "C02": " Added later: a three-byte menu separator and browse labels that the resource expands, in one slot of the family each.",
  "C03": " Added later: in the last position of a history also a selector followed by a blank, an input with a formatting verb and an input with template syntax; the catch page must render.",
- "C04": " Added later at the engine level: a flushing persister, an engine with a first function, and ResetOnEmptyInput with the empty input (three further modes).",
+ "C04": " Added later at the engine level: a flushing persister, an engine with a first function, a first function that refuses a request (the position stays), and ResetOnEmptyInput with the empty input (four further modes).",
  "C05": " Added later: a multi-byte answer (limits count bytes) and a directed family of four applications (taken and not-taken CATCH after MAP and MOUT, a sink symbol reused as a sized value, a value loaded below the entry node and left before the session ends), all histories of depth 4/5 in both modes with and without an output size.",
  "C07": " Added later: an engine WITH a persister kept for the whole session, a gateway that serves each request through engine.Loop, and - per application - all pairs of histories of two sessions served alternately (second one also starting two requests later) through ONE flushing persister, compared with being served alone; corpus applications with a first function, two lists with different browse labels, a failing load followed by another failing instruction.",
  "C08": " Added later: deep descents with a first function and after a failed load, junk input at the deepest point.",
